@@ -2,6 +2,7 @@ package checks
 
 import (
 	"fmt"
+	"path/filepath"
 	"sort"
 
 	"verif/harness/internal/observe"
@@ -15,16 +16,16 @@ func init() {
 	run.Register(&run.Check{
 		ID:    "C04",
 		Level: "exploration",
-		Rule: "cases: ordered pairs (A,B) of manifest sets, B = A after 1-3 edits (rule/port/CIDR/except edits that move the ipBlock partition, added/removed/renamed/re-kinded workloads, added/removed policies, relabelling, ANP edits) or an unrelated world; " +
+		Rule: "cases: ordered pairs (A,B) of manifest sets, B = A after 1-3 edits (rule/port/CIDR/except edits that move the ipBlock partition, added/removed/renamed/re-kinded workloads, added/removed policies, relabelling, ANP edits) or an unrelated world; the tail of the list pairs the manifest directories shipped with the repository (each with its alphabetical neighbour - very often a variant of it -, in the thorough tier also with the next three); " +
 			"list(A), list(B), diff(A,B), diff(B,A), diff(A,A) are recorded from the real library; for every ordered workload pair and every (workload, address atom, direction) - atoms induced by the range boundaries of both reports and of all diff entries - the number of covering diff entries, their type, both connection values and the new/lost flags are compared with what (c1,c2, workload presence) determine; " +
 			"non-trivial = the diff has >= 2 non-empty categories or the two reports partition the address space differently; distinct = hash of both worlds",
 		Assumptions:       []string{"list(A) and list(B) are the reference (their own correctness is C01/C02's subject)", "the reserved peer name ingress-controller is never used for a real workload"},
-		NumCases:          func(tier string, _ int64) int { return tierN(tier, 1600, 40000) },
+		NumCases:          func(tier string, _ int64) int { return tierN(tier, 1600, 40000) + nFixPairs(tier) },
 		Run:               runC04,
 		MinNonTrivial:     150,
 		MinEffectiveShare: 0.4,
 		RequiredEvents: map[string]int64{"points_checked": 20000, "entries_added": 50, "entries_removed": 50, "entries_changed": 50, "entries_unchanged": 200,
-			"pairs_with_refined_ranges": 50, "entries_with_newlost_flag": 30, "merged_ip_entries": 50, "edit_moveCIDR": 100, "points_removed_and_added_same_conn_same_workload": 50},
+			"pairs_with_refined_ranges": 50, "entries_with_newlost_flag": 30, "merged_ip_entries": 50, "edit_moveCIDR": 100, "points_removed_and_added_same_conn_same_workload": 50, "fixture_pairs": 40},
 	})
 }
 
@@ -305,8 +306,33 @@ func genDiffBase(g *rng.R) (*world.World, world.Cfg) {
 	return w, cfg
 }
 
+// nFixPairs: pairs of manifest directories shipped with the repository (tail of the case list). Directory k of the sorted list is paired
+// with directory k+offset: alphabetical neighbours are very often variants of one another (…_old1 / …_old2, a workload set and the same
+// set with changed policies), which is what people diff; the further offsets pair unrelated sets.
+func nFixPairs(tier string) int { return nFixtureCases * tierN(tier, 1, 4) }
+
+func runC04FixturePair(c *run.Ctx, k int) {
+	r := c.Res
+	a, b := fixtureFor(c.Repo, k%nFixtureCases), fixtureFor(c.Repo, k%nFixtureCases+1+k/nFixtureCases)
+	if a == "" || a == b || filepath.Base(a) == "ipblockstest_4" || filepath.Base(b) == "ipblockstest_4" {
+		r.Discarded = "no pair (or the 25-seconds-per-analysis directory)"
+		return
+	}
+	r.Name = "fixtures " + filepath.Base(a) + " vs " + filepath.Base(b)
+	r.Hash = "fixturepair/" + filepath.Base(a) + "/" + filepath.Base(b)
+	r.Ev("fixture_pairs", 1)
+	r.Feat("fixturePair")
+	c04JudgeDirs(c, a, b, func(ents []string) map[string]interface{} {
+		return map[string]interface{}{"A": a, "B": b, "diff_entries": ents}
+	})
+}
+
 func runC04(c *run.Ctx) {
 	r := c.Res
+	if base := tierN(c.Tier, 1600, 40000); c.Idx >= base {
+		runC04FixturePair(c, c.Idx-base)
+		return
+	}
 	g := c.R("world")
 	wa, cfg := genDiffBase(g)
 	wb := wa
@@ -352,6 +378,14 @@ func runC04(c *run.Ctx) {
 		r.Discarded = err.Error()
 		return
 	}
+	c04JudgeDirs(c, da, db, func(ents []string) map[string]interface{} {
+		return map[string]interface{}{"A": shortWorld(wa), "B": shortWorld(wb), "edits": edits, "diff_entries": ents}
+	})
+}
+
+// c04JudgeDirs records list(A), list(B), diff(A,B), diff(B,A), diff(A,A) of two directories and judges the diffs point by point.
+func c04JudgeDirs(c *run.Ctx, da, db string, sample func(ents []string) map[string]interface{}) {
+	r := c.Res
 	la, lb := observe.List(da, observe.ListOpts{}), observe.List(db, observe.ListOpts{})
 	if la.Panic != "" || lb.Panic != "" {
 		r.Violate("c04.total", "c04.total:any:panic", "a result or an error", "panic: "+la.Panic+lb.Panic, "")
@@ -408,7 +442,7 @@ func runC04(c *run.Ctx) {
 					}
 					ents = append(ents, fmt.Sprintf("%s: %s => %s : %s -> %s (srcNewLost=%v dstNewLost=%v)", e.Type, e.Src, e.Dst, e.C1, e.C2, e.SrcNew, e.DstNew))
 				}
-				r.SetSample(map[string]interface{}{"A": shortWorld(wa), "B": shortWorld(wb), "edits": edits, "diff_entries": ents})
+				r.SetSample(sample(ents))
 			}
 		}
 	}
